@@ -7,7 +7,7 @@ from harness.oracles4 import QUERIES
 
 INDEX_SET = [-6, 0, 2, 8]        # -1.5, 0, 0.5, 2 in quarter units: negative, fractional, non-consecutive
 
-def filtration_history(rnd, steps, checks=True, attrs=False, nav=True, pool=None):
+def filtration_history(rnd, steps, checks=True, attrs=False, nav=True, pool=None, pad=False):
     """a history over one filtration f, driven by a live implementation run so that requests are
     in contract: faces (and every existing subset of a basis) visible at the current index"""
     w = impl.ImplWorld()
@@ -27,6 +27,24 @@ def filtration_history(rnd, steps, checks=True, attrs=False, nav=True, pool=None
     if checks:
         lines.append('check c13-begin f q%d' % i0)
     w.exec('check c13-begin f q%d' % i0)
+    if pad:
+        # a large start: 10 points (int and str names) at the first index visited, 30 edges and a few
+        # triangles at one or two later ones -- 40+ simplices visible at the top index
+        pts_ = [900 + i if i % 2 == 0 else 'P%d' % i for i in range(10)]
+        for p_ in pts_:
+            emit('add f [ ] %s -' % tok(p_))
+        later = sorted(x for x in INDEX_SET if x >= i0)
+        k_ = 0
+        for a_ in range(8):
+            for b_ in range(a_ + 1, 8):
+                k_ += 1
+                if k_ in (1, 16) and len(later) > 1:
+                    later.pop(0); emit('setindex f q%d' % later[0])
+                nm_ = tok(950 + k_) if k_ % 3 == 0 else (tok('E%d' % k_) if k_ % 3 == 1 else '-')
+                emit('add f [ %s %s ] %s -' % (tok(pts_[a_]), tok(pts_[b_]), nm_))
+        for tri in [(0, 1, 2), (0, 1, 3), (4, 5, 6)]:
+            emit('addb f %s - -' % list_s([pts_[x] for x in tri]))
+        stats['padded'] = 1
     for _ in range(steps):
       try:
             f = w.vars['f']
@@ -127,10 +145,15 @@ class C13(Prop):
         scripts = []; stats = {}
         n = 90 if tier == 'quick' else 2500
         for i in range(n):
-            lines, st = filtration_history(rnd, rnd.randint(6, 18) if tier == 'quick' else rnd.randint(8, 30))
-            if i % 4 == 3:
+            big = (i % 9 == 8)
+            lines, st = filtration_history(rnd, (rnd.randint(6, 18) if tier == 'quick' else rnd.randint(8, 30)) if not big else rnd.randint(4, 9), pad=big)
+            if i % 4 == 3 or big:
                 lines = lines + stepped_iteration(rnd, lines, 'c09')
+            if i % 3 == 1:
+                lines = lines + ['check c13-lockstep f', 'q f getindex']
             scripts.append(lines); merge_stats(stats, st)
+            if big:
+                scripts.append(['exotic %s %s' % (rnd.choice(['-', 'obj', 'bytes']), rnd.choice(['tuple', 'fraction']))] + lines)
         return scripts, {'op_mix': stats, 'generator': 'random histories over the index set {-1.5, 0, 0.5, 2} visited in any order: adds by faces and by basis, deletes (also of simplices not visible now), re-adds at emptied indices, snapshots and iterations in between'}
 
 @prop('C14')
@@ -139,7 +162,8 @@ class C14(Prop):
         scripts = []; stats = {}
         n = 70 if tier == 'quick' else 2000
         for i in range(n):
-            lines, st = filtration_history(rnd, rnd.randint(6, 16) if tier == 'quick' else rnd.randint(8, 28), checks=False)
+            big = (i % 9 == 8)
+            lines, st = filtration_history(rnd, (rnd.randint(6, 16) if tier == 'quick' else rnd.randint(8, 28)) if not big else rnd.randint(4, 9), checks=False, pad=big)
             merge_stats(stats, st)
             out = []
             k = 0
@@ -156,4 +180,7 @@ class C14(Prop):
             # stepping through the whole index set, compared with the model
             out += ['min f', 'q f getindex'] + ['next f', 'q f simplices 0', 'q f counts'] * 4 + ['prev f', 'q f getindex'] * 2 + ['max f', 'q f getindex']
             scripts.append(out)
+            if big:
+                # the same large filtration over an index set of tuples / exact fractions (and unusual name types)
+                scripts.append(['exotic %s %s' % (rnd.choice(['-', 'obj', 'frozenset']), rnd.choice(['tuple', 'fraction']))] + out)
         return scripts, {'op_mix': stats, 'generator': 'the filtrations of the C13 workload; every index x every read-only query compared with the snapshot at that index; stepping from every index'}
